@@ -51,6 +51,10 @@ type Config struct {
 	PhaseMin      int         `json:"phase_min"`
 	PhaseMax      int         `json:"phase_max"`
 	Liveness      bool        `json:"liveness"`
+	// LenientSync (param lenient_sync=1, diagnosis only): losing an answered-on
+	// term/vote/entries that came with MustSync=false is not itself reported;
+	// the run goes on from the rolled-back disk to show the downstream symptom.
+	LenientSync bool `json:"lenient_sync,omitempty"`
 }
 
 func pickW(r *core.Rand, vals []int, weights []int) int {
